@@ -591,6 +591,23 @@ def oracle(ctx, case, r, prefix='C15/', replay=None, note=''):
                     return bad('inserted-not-default', '%s: inserted object at %s is not default-valued' % (name, t))
                 if not isinstance(m.p1_time, type(cls().p1_time)):
                     ctx.count('observation_inserted_p1_time_is_' + type(m.p1_time).__name__)
+    # an inserted entry is a message of its own: its (mutable) p1_time object belongs to no other entry of the result, of this or
+    # of any other type - otherwise `entry.p1_time += dt` on one series moves an entry of another series, whose timestamps then are
+    # no longer the ones the alignment gave it (the series would be equal only until the caller touches one of them)
+    owner = {}
+    for k in aligned:
+        for pos, m in enumerate(r['mds'][k].messages):
+            t = getattr(m, 'p1_time', None)
+            if t is None or isinstance(t, (int, float, str, bytes, tuple, frozenset, np.floating, np.integer)):
+                continue
+            inserted = id(m) not in r['ids'][k]
+            prev = owner.get(id(t))
+            if prev is not None and (inserted or prev[2]) and prev[3] is not m:
+                return bad('entries-share-one-time-object', '%s position %d and %s position %d carry the same %s object as p1_time '
+                           '(%s): changing the time of one entry in place changes the other'
+                           % (case['types'][prev[0]][0], prev[1], case['types'][k][0], pos, type(t).__name__,
+                              'both inserted' if inserted and prev[2] else 'one of them inserted'))
+            owner.setdefault(id(t), (k, pos, inserted, m))
     # pairwise equal timestamps: at every position the aligned types carry the same float (real and inserted entries alike)
     rows = [[ftime(m) for m in r['mds'][k].messages] for k in aligned]
     for pos in range(first_len or 0):
